@@ -4,3 +4,4 @@ pub mod xlsx_sheet;
 pub mod xlsx_strings;
 pub mod shared_formula;
 pub mod numfmt;
+pub mod dates;
